@@ -23,6 +23,7 @@ package serviceinfo
 
 //@ func serviceinfo.Devmod.writeModuleMessages
 //@   params d modules mtu w
+//@   local chunk = MakeInterface#5 | UnOp#14 | UnOp#17 | UnOp#7 | UnOp#8 | addr:Alloc#2
 //@   props C10(sweep)
 //@   sweep bounds,panic,make,nilmem,div
 
